@@ -256,6 +256,46 @@ func (x *Ex) genFuncsMore(body *LeanFile) {
 		{"internal/stringutil", "FastWordCounter", "Count"},
 		{"internal/stringutil", "", "SelectWordCounter"},
 	})
+	// the schema.org accessor: what Model/SchemaOrg.lean models
+	x.bodyGroup(body, "schemaOrgBodies", []string{"C14"}, [][3]string{
+		{"internal/markup/schemaorg", "Parser", "parse"},
+		{"internal/markup/schemaorg", "Parser", "parseElement"},
+		{"internal/markup/schemaorg", "Parser", "getItemScopeParent"},
+		{"internal/markup/schemaorg", "Parser", "createItemForElement"},
+		{"internal/markup/schemaorg", "Parser", "isItemScope"},
+		{"internal/markup/schemaorg", "Parser", "getItemProp"},
+		{"internal/markup/schemaorg", "Parser", "getItemType"},
+		{"internal/markup/schemaorg", "Parser", "getPropertyValue"},
+		{"internal/markup/schemaorg", "Parser", "getAuthorFromRelAttribute"},
+		{"internal/markup/schemaorg", "Parser", "getArticleItems"},
+		{"internal/markup/schemaorg", "Parser", "getImageItems"},
+		{"internal/markup/schemaorg", "Parser", "Title"},
+		{"internal/markup/schemaorg", "Parser", "Type"},
+		{"internal/markup/schemaorg", "Parser", "URL"},
+		{"internal/markup/schemaorg", "Parser", "Images"},
+		{"internal/markup/schemaorg", "Parser", "Description"},
+		{"internal/markup/schemaorg", "Parser", "Publisher"},
+		{"internal/markup/schemaorg", "Parser", "Copyright"},
+		{"internal/markup/schemaorg", "Parser", "Author"},
+		{"internal/markup/schemaorg", "Parser", "Article"},
+		{"internal/markup/schemaorg", "Parser", "OptOut"},
+		{"internal/markup/schemaorg", "BaseThingItem", "init"},
+		{"internal/markup/schemaorg", "BaseThingItem", "putStringValue"},
+		{"internal/markup/schemaorg", "BaseThingItem", "putItemValue"},
+		{"internal/markup/schemaorg", "", "NewArticleItem"},
+		{"internal/markup/schemaorg", "ArticleItem", "getArticle"},
+		{"internal/markup/schemaorg", "ArticleItem", "getCopyright"},
+		{"internal/markup/schemaorg", "ArticleItem", "getPersonOrOrganizationName"},
+		{"internal/markup/schemaorg", "ArticleItem", "getRepresentativeImageItem"},
+		{"internal/markup/schemaorg", "ArticleItem", "getImage"},
+		{"internal/markup/schemaorg", "", "NewImageItem"},
+		{"internal/markup/schemaorg", "ImageItem", "isRepresentativeOfPage"},
+		{"internal/markup/schemaorg", "ImageItem", "getImage"},
+		{"internal/markup/schemaorg", "", "NewPersonItem"},
+		{"internal/markup/schemaorg", "PersonItem", "getName"},
+		{"internal/markup/schemaorg", "", "NewOrganizationItem"},
+		{"internal/markup/schemaorg", "OrganizationItem", "getName"},
+	})
 	// the prefix test whose success licenses `linkHref[lenPrefix:]` in PrevNextFinder.FindOutlink
 	x.bodyStmts(body, "internal/stringutil", "", "HasPrefixIgnoreCase", "hasPrefixIgnoreCaseBody", "C01", "C16")
 }
